@@ -83,11 +83,14 @@ def _wrap(harness: str, func: str, new_mod: str, new_func: str, bind: dict, post
     sig = ', '.join(f'{a.arg}: {ast.unparse(a.annotation)}' if a.annotation else a.arg for a in args)
     call = ', '.join(f'{a.arg}={bind[a.arg]!r}' if a.arg in bind else f'{a.arg}={a.arg}' for a in node.args.args)
     GEN.mkdir(parents=True, exist_ok=True)
-    body = [f'from {harness} import *  # noqa', f'import {harness} as _m', '']
+    body = [f'from {harness} import *  # noqa', f'import {harness} as _m', 'from vf.hutil import contract_free as _cf', '',
+            '# call a contract-free copy: CrossHair ENFORCES the PEP316 contract of a called function and silently drops paths',
+            '# on which the callee\'s own post fails ("internal failed post condition") - that would hide every violation.',
+            f'_impl = _cf(_m.{func})', '']
     body += [f'{k} = {v!r}' for k, v in bind.items()]   # bound names visible to the pre expressions
     body += ['', f'def {new_func}({sig}) -> str:', '    """']
     body += [f'    pre: {p}' for p in pres if _names_in(p) & {a.arg for a in args}]
-    body += [f'    post: {post}', '    """', f'    return _m.{func}({call})', '']
+    body += [f'    post: {post}', '    """', f'    return _impl({call})', '']
     (GEN / f'{new_mod}.py').write_text('\n'.join(body))
     return new_mod, new_func
 
